@@ -185,6 +185,13 @@ func usable(z *decimal.Decimal) (msg string) {
 // violation message or "".
 func decodeCheck(p []byte, prec uint32, mode uint8, laden bool) (msg string, class string, accepted bool) {
 	verifrt.ResetPool() // every case starts from an empty pool: a replay of this case alone sees the same
+	defer func() {
+		// a panic while preparing the history-laden receiver (SetBitsExp, SetPrec
+		// on valid arguments) is a defect of the library too
+		if r := recover(); r != nil {
+			msg, class, accepted = fmt.Sprintf("preparing the receiver panicked: %v", r), "foreign-panic", false
+		}
+	}()
 	z := new(decimal.Decimal)
 	if laden {
 		// history-laden receiver: holds a long value and spare capacity
@@ -224,6 +231,16 @@ func decodeCheck(p []byte, prec uint32, mode uint8, laden bool) (msg string, cla
 		return u, "unusable", true
 	}
 	return "", "", true
+}
+
+// safeDecode calls GobDecode and converts a panic into an error description.
+func safeDecode(z *decimal.Decimal, p []byte) (err error, panicMsg string) {
+	defer func() {
+		if r := recover(); r != nil {
+			panicMsg = fmt.Sprint(r)
+		}
+	}()
+	return z.GobDecode(p), ""
 }
 
 type gobStats struct {
@@ -386,7 +403,11 @@ func runGob(sc *Scenario) *Outcome {
 	out.Ops++
 	{
 		var z decimal.Decimal
-		if err := z.GobDecode(enc); err != nil {
+		err, pm := safeDecode(&z, enc)
+		if pm != "" {
+			return viol("foreign-panic", fmt.Sprintf("decoding the valid encoding of %s panicked: %s", xo, pm), rt)
+		}
+		if err != nil {
 			return viol("roundtrip", fmt.Sprintf("decoding the encoding of %s failed: %v", xo, err), rt)
 		}
 		if zo := observe(&z); zo.String()+zo.Digits != xo.String()+xo.Digits {
@@ -402,7 +423,11 @@ func runGob(sc *Scenario) *Outcome {
 				z.Mul(z, z)
 			}
 			z.SetMode(decimal.RoundingMode(bs.RecvMode)).SetPrec(uint(bs.RecvPrec))
-			if err := z.GobDecode(enc); err != nil {
+			err, pm := safeDecode(z, enc)
+			if pm != "" {
+				return viol("foreign-panic", fmt.Sprintf("decoding the valid encoding of %s into a receiver with prec=%d mode=%d panicked: %s", xo, bs.RecvPrec, bs.RecvMode, pm), rt)
+			}
+			if err != nil {
 				return viol("roundtrip", fmt.Sprintf("decoding the encoding of %s failed: %v", xo, err), rt)
 			}
 			want := new(decimal.Decimal).SetMode(decimal.RoundingMode(bs.RecvMode)).SetPrec(uint(bs.RecvPrec)).Set(x)
@@ -422,7 +447,20 @@ func runGob(sc *Scenario) *Outcome {
 		}
 		var z decimal.Decimal
 		rd := &faultyReader{data: buf.Bytes(), chunk: bs.Chunk}
-		if err := gob.NewDecoder(rd).Decode(&z); err != nil {
+		var derr error
+		pm := ""
+		func() {
+			defer func() {
+				if r := recover(); r != nil {
+					pm = fmt.Sprint(r)
+				}
+			}()
+			derr = gob.NewDecoder(rd).Decode(&z)
+		}()
+		if pm != "" {
+			return viol("foreign-panic", fmt.Sprintf("gob stream round trip of %s panicked: %s", xo, pm), rt)
+		}
+		if err := derr; err != nil {
 			return viol("roundtrip-stream", fmt.Sprintf("gob stream round trip of %s failed: %v", xo, err), rt)
 		}
 		if zo := observe(&z); zo.String()+zo.Digits != xo.String()+xo.Digits {
